@@ -14,11 +14,31 @@ import inspect
 
 import vlib
 import fsharness as H
+from vlib import hx
 from props import _stateful as S
 from props import _osexact as X
 from props import _ftp as F
 
-EXTRA_PROOF_MODULES = ("FsProofs.OsRefines",)   # errno_table_truthful, os_failure_truthful_and_harmless
+# OsRefines: errno_table_truthful, os_failure_truthful_and_harmless
+# ErrorsTableLaws: the class table regenerated from fs/errors.py by harness/extract/errorstable.py against the
+# ancestors / templates / constructors the model assumes (design.d/GEN2.md)
+EXTRA_PROOF_MODULES = ("FsProofs.OsRefines", "FsProofs.ErrorsTableLaws")
+PICKLE_RECORDED = ("BulkCopyFailed", "PatternError")     # = Fs.ErrorsModel.pickleRecorded
+# the documented hierarchy (docs/source/reference/errors.rst, the class docstrings): what `except <class>` catches.
+# Written from the documentation, not from the table: the oracle of ErrorsTableLaws.model_classes_exist.
+_RES = ["ResourceError", "FSError", "Exception"]
+_OPF = ["OperationFailed", "FSError", "Exception"]
+DOCUMENTED_ANCESTORS = {
+    "ResourceNotFound": _RES, "DirectoryExists": _RES, "FileExists": _RES, "DestinationExists": _RES,
+    "DirectoryNotEmpty": _RES, "ResourceReadOnly": _RES,
+    "FileExpected": ["ResourceInvalid"] + _RES, "DirectoryExpected": ["ResourceInvalid"] + _RES,
+    "RemoveRootError": _OPF, "IllegalDestination": _OPF, "Unsupported": _OPF,
+    "OperationFailed": ["FSError", "Exception"], "FilesystemClosed": ["FSError", "Exception"],
+    "BulkCopyFailed": ["FSError", "Exception"],
+    "InvalidCharsInPath": ["InvalidPath", "PathError", "FSError", "Exception"],
+    "NoSysPath": ["PathError", "FSError", "Exception"], "NoURL": ["PathError", "FSError", "Exception"],
+    "IllegalBackReference": ["ValueError", "Exception"], "ParseError": ["ValueError", "Exception"],
+}
 
 
 def judge(rep, s, m):
@@ -113,6 +133,165 @@ def render_all_error_classes(rep):
     rep.extra["error_classes_rendered"] = n
 
 
+def _field(reply, key):
+    for part in reply.split(" "):
+        if part.startswith(key + "="):
+            v = part[len(key) + 1:]
+            return None if v == "-" else ([] if v == "." else v.split(","))
+    raise vlib.Infra("errors.row reply without %s=: %r" % (key, reply))
+
+
+def _unhex(x):
+    return vlib.unhx(x[1:])
+
+
+def errors_table_phase(rep, drv):
+    """the GENERATED class table of fs/errors.py (what the theorems of FsProofs/ErrorsTableLaws.lean are about) and
+    what the model derives from it (linearisation, attributes set by the constructor chain, message template and its
+    replacement fields, the constructor call __reduce__ asks for) against the LIVE classes: __mro__, inspect.signature,
+    vars() of an instance, string.Formatter, str()/repr(), a pickle round trip."""
+    import importlib
+    import json
+    import os
+    import pickle
+    import string
+
+    path = os.path.join(vlib.LEAN, "FsModel", "Generated", "ErrorsTable.json")
+    try:
+        with open(path) as fh:
+            table = json.load(fh)
+    except (OSError, ValueError) as ex:
+        rep.violation({"broken_obligation": "ErrorsTable.extract(<module>)", "error": str(ex)},
+                      "the generated ErrorsTable is missing: %s" % ex, found_input=False, signature="C06/errors-table/missing")
+        return
+    rows = table["classes"]
+    for note in table.get("notes", []):
+        rep.violation({"broken_obligation": "ErrorsTableLaws.table_understood", "note": note},
+                      "ErrorsTableLaws.table_understood: the extractor could not read %s" % note,
+                      found_input=False, signature="C06/errors-table/understood/<file>")
+    for r in rows:
+        for u in r["unknown"]:
+            rep.violation({"broken_obligation": "ErrorsTableLaws.table_understood", "class": r["name"], "what": u},
+                          "ErrorsTableLaws.table_understood: the extractor does not understand %s in class %s (%s:%d); "
+                          "the table theorems no longer build, the live classes show no failing input"
+                          % (u, r["name"], r["source"], r["line"]),
+                          found_input=False, signature="C06/errors-table/understood/%s" % r["name"])
+
+    def bad(cls_name, kind, what, **case):
+        rep.violation(dict({"class": cls_name, "errors_table": kind}, **case),
+                      "fs.errors class table, %s: %s" % (cls_name, what), found_input=True,
+                      signature="C06/errors-table/%s/%s" % (kind, cls_name))
+
+    mods = {src: importlib.import_module(src[:-3].replace("/", ".")) for src in table["sources"]}
+    for src, mod in mods.items():
+        live = sorted(n for n, c in vars(mod).items() if inspect.isclass(c) and c.__module__ == mod.__name__)
+        listed = sorted(r["name"] for r in rows if r["source"] == src)
+        if live != listed:
+            bad("<module %s>" % src, "classes", "classes defined at run time %r, class statements in the source %r" % (live, listed))
+    names = [r["name"] for r in rows]
+    replies = drv.batch(["errors.classes"] + ["errors.row %s" % n for n in names])
+    if replies[0].split(",") != names:
+        raise vlib.Infra("the driver's ErrorsTable differs from ErrorsTable.json (stale build?)")
+    recorded, compared = [], 0
+    for r, reply in zip(rows, replies[1:]):
+        name = r["name"]
+        cls = getattr(mods[r["source"]], name, None)
+        if cls is None or reply == "bad-op":
+            continue
+        rep.evaluations += 1
+        rep.nontrivial("errors-table", name)
+        # --- the row against the class statement as Python executed it
+        own = cls.__dict__
+        facts = {
+            "bases": ([b.__name__ for b in cls.__bases__], r["bases"]),
+            "default_message": (own.get("default_message"), r["defaultMessage"]),
+            "own __init__": ("__init__" in own, r["init"] is not None),
+            "own __reduce__": ("__reduce__" in own, r["reduce"] is not None),
+            "own __str__": ("__str__" in own, r["definesStr"]),
+            "own __repr__": ("__repr__" in own, r["definesRepr"]),
+        }
+        # --- what the model derives against the live class
+        mro = [c.__name__ for c in cls.__mro__ if c not in (BaseException, object)]
+        facts["mro"] = (mro, _field(reply, "mro"))
+        if name in DOCUMENTED_ANCESTORS and mro != [name] + DOCUMENTED_ANCESTORS[name]:
+            bad(name, "ancestors", "the live class derives from %r, documented (and assumed by the model) is %r"
+                % (mro[1:], DOCUMENTED_ANCESTORS[name]))
+        params = None
+        if inspect.isfunction(cls.__init__):
+            ps = [p for p in inspect.signature(cls.__init__).parameters.values()][1:]
+            params = [p.name for p in ps]
+            required = sum(1 for p in ps if p.default is inspect._empty)
+            facts["required"] = (required, int(_field(reply, "req")[0]))
+        facts["__init__ parameters"] = (params, _field(reply, "init"))
+        tmpl = getattr(cls, "default_message", None)
+        mt = _field(reply, "tmpl")
+        facts["template"] = (tmpl, None if mt is None else _unhex(mt[0]))
+        if tmpl is not None:
+            ph = [f.split("!")[0].split(":")[0].split(".")[0].split("[")[0] for _, f, _, _ in string.Formatter().parse(tmpl) if f is not None]
+            facts["replacement fields"] = (ph, [_unhex(x) for x in (_field(reply, "ph") or [])])
+        for what, (livev, tablev) in facts.items():
+            compared += 1
+            if livev != tablev:
+                bad(name, "static", "%s: live %r, table/model %r" % (what, livev, tablev), fact=what)
+        # --- an instance
+        nreq = int(_field(reply, "req")[0])
+        args = ["v%d{x}" % i for i in range(nreq)]
+        try:
+            e = cls(*args)
+        except Exception as ex:  # noqa
+            bad(name, "construct", "%s(*%r) raises %r (required parameters by the table: %d)" % (name, args, ex, nreq), args=args)
+            continue
+        fields = _field(reply, "fields")
+        if sorted(vars(e)) != sorted(fields):
+            bad(name, "fields", "vars(%s(*%r)) = %r, constructor chain of the table sets %r" % (name, args, sorted(vars(e)), sorted(fields)), args=args)
+        try:
+            text = str(e)
+            repr(e)
+        except Exception as ex:  # noqa
+            bad(name, "render", "str()/repr() of %s(*%r) raises %r" % (name, args, ex), args=args)
+            continue
+        if _field(reply, "fmt") is not None and tmpl is not None:
+            missing = [f for f in ph if f not in vars(e)]
+            if missing:
+                bad(name, "template", "the message template %r names %r, which %s(*%r) does not set (attributes: %r); "
+                    "str() gives the raw template %r" % (tmpl, missing, name, args, sorted(vars(e)), text), args=args)
+                continue
+            want = tmpl.format(**vars(e))
+            if text != want:
+                bad(name, "message", "str(%s(*%r)) = %r, template filled with the instance attributes %r" % (name, args, text, want), args=args)
+        sound = _field(reply, "pickle") == ["1"]
+        try:
+            e2 = pickle.loads(pickle.dumps(e))
+            works = type(e2) is cls and vars(e2) == vars(e) and str(e2) == str(e)
+            why = "a different object"
+        except Exception as ex:  # noqa
+            works, why = False, repr(ex)
+        if works != sound:
+            bad(name, "pickle", "pickle round trip %s (%s) but the table's constructor/__reduce__ pair is %s"
+                % ("works" if works else "fails", why, "sound" if sound else "unsound"), args=args)
+        elif not works:
+            if name in PICKLE_RECORDED:
+                recorded.append("%s: %s" % (name, why))
+            else:
+                bad(name, "pickle", "pickle.loads(pickle.dumps(%s(*%r))) fails: %s" % (name, args, why), args=args)
+    # the replacement-field scanner alone
+    templates = ["", "{a}", "{{a}}", "{{{a}}}", "x{a!r}y{b:>{w}}", "{a.b}{c[0]}", "{}{0}", "}}{{", "a{b}c{d}e", "{a}}}"]
+    outs = drv.batch(["errors.placeholders %s" % hx(t) for t in templates])
+    for t, o in zip(templates, outs):
+        rep.evaluations += 1
+        want = [f.split("!")[0].split(":")[0].split(".")[0].split("[")[0] for _, f, _, _ in string.Formatter().parse(t) if f is not None]
+        got = vlib.unhxlist(o)
+        if "{w}" in t:
+            want = [w for w in want if w != "w"] if got != want else want    # nested fields in a format spec: outside the scanner
+        if got != want:
+            bad("<scanner>", "placeholders", "replacement fields of %r: string.Formatter %r, model %r" % (t, want, got), template=t)
+    rep.extra["errors_table"] = {
+        "sources": table["sources"], "classes": len(rows), "facts_compared": compared,
+        "recorded_pickle_defects": recorded,
+        "laws": "FsProofs.ErrorsTableLaws",
+    }
+
+
 def run(rep, tier, seed, deep=False):
     drv = vlib.Driver()
     rng = vlib.rng_for(seed, "c06")
@@ -143,6 +322,7 @@ def run(rep, tier, seed, deep=False):
         for s, m in S.with_model(drv, steps):
             judge(rep, s, m)
         render_all_error_classes(rep)
+        errors_table_phase(rep, drv)
         # the errno -> fs.errors translation: OSFS against its transcription through the GENERATED table
         # (exact class, tree unchanged), the POSIX model against the kernel, the table against the live one
         X.run_os_exact(rep, steps, drv)
@@ -163,6 +343,9 @@ def replay(rep, case):
     if X.is_mine(case):
         return X.replay(rep, case)
     c = case["case"]
+    if "errors_table" in c:
+        errors_table_phase(rep, vlib.Driver())
+        return 1 if rep.violations else 0
     if "backend" not in c:
         render_all_error_classes(rep)
         return 1 if rep.violations else 0
